@@ -399,8 +399,13 @@ def _check_state(obj, m, row_tags=None, strict_ties=None):
                 continue                 # already reported by roundtrip
             if tr["_const"]:
                 if scl[j] != 1.0:
-                    out.append(("constant-trait-nonunit-scale", "trait %d is constant (%r x %d) but scale = %r, "
-                                "stored values %s" % (j, tr["_fin"][0], len(stored), scl[j], stored[:4]), (j, "scale")))
+                    # after a history the retained values carry rounding of earlier round trips, so values that are
+                    # equal in truth may reach the library an ulp apart: a scale at rounding level is then all that
+                    # can be asked for.  A freshly constructed matrix sees the exact values: unit scale, exactly.
+                    if m.steps == 0 or not (0.0 < scl[j] <= 64 * base):
+                        out.append(("constant-trait-nonunit-scale" if scl[j] <= 64 * base else "stored-centred-scaled",
+                                    "trait %d is constant (%r x %d) but scale = %r, stored values %s" % (
+                                        j, tr["_fin"][0], len(stored), scl[j], stored[:4]), (j, "scale")))
                 else:
                     tolc = 32 * base + 1e-300
                     if any(abs(s) > tolc for s in stored):
